@@ -1721,8 +1721,8 @@ theorem insert_knot_fuel_plain [FloorRing K] (f : ℕ) (b : Basis K) (tol x0 : K
 /-- **`insert_knot`, outside the cover branch.**  Non-periodic bases, and periodic bases with at least
     `p + k` functions (`hg`): the translated method equals the hand model.  (`hcol`: no collapsed domain;
     `hmu`: the insertion index is not below the order, true for sorted knots.)
-    PARTIAL: the cover branch (periodic, fewer than `p + k` functions — the recursive refinement of the
-    `R`-fold cover) is translated and elaborated but not covered by an equality theorem. -/
+    The cover branch (periodic, fewer than `p + k` functions — the recursive refinement of the
+    `R`-fold cover) is covered by `PyBasis_insert_knot_eq_cover` at the end of this section. -/
 theorem _root_.PyBasis_insert_knot_eq [FloorRing K] (b : Basis K) (tol x0 : K) (h1 : 1 ≤ b.order)
     (hper : -1 ≤ b.periodic) (hsz : b.order + 1 ≤ b.knots.size)
     (hcol : 0 ≤ b.periodic → (x0 < b.start ∨ x0 > b.stop) → b.stop - b.start ≠ 0)
